@@ -13,8 +13,8 @@
 package main
 
 import (
-	"context"
 	"bufio"
+	"context"
 	"encoding/json"
 	"errors"
 	"fmt"
@@ -44,21 +44,26 @@ type actorT struct {
 	K   string // Q request, F Freeze, W Warmup, R register, H WhereInt, N SetName, U URLFor
 	R   int    // route id (target of the request / object of the operation)
 	Val bool   // Q: the parameter value is an integer
-	RK  int    // R: 0 r.GET, 1 group.GET, 2 mount, 3 r.Version("v1").GET; 100+p: a route BELOW route p (/r<p>/:id/d<R>), same registrar as p
+	RK  int    // R: 0 r.GET, 1 group.GET, 2 mount, 3 r.Version("v1").GET; 4 mount of a sub-router with static routes only; 5, 6 = 2, 4 with the sub-router warmed up before the mount; 100+p: a route BELOW route p (/r<p>/:id/d<R>), same registrar as p; 200+p: the SAME path as version route p, registered in version v2
 }
 
 type caseT struct {
 	Actors []actorT
 	Plan   []int // schedule prefix; the harness then drains round-robin until every goroutine is done
+	Comp   bool  `json:",omitempty"` // router built with WithRouteCompilation(true)
 }
+
+func isMount(rk int) bool { return rk == 2 || (rk >= 4 && rk <= 6) }
 
 func routePath(a actorT) (pattern, prefix string) {
 	p := "/r" + strconv.Itoa(a.R) + "/:id"
-	switch a.RK {
-	case 1:
+	switch {
+	case a.RK == 1:
 		return p, "/g"
-	case 2:
+	case isMount(a.RK):
 		return p, "/m" + strconv.Itoa(a.R)
+	case a.RK >= 200:
+		return "/r" + strconv.Itoa(a.RK-200) + "/:id", ""
 	}
 	return p, ""
 }
@@ -71,12 +76,13 @@ type evT struct {
 }
 
 type actor struct {
-	idx   int
-	gid   int64
-	wake  chan struct{}
-	ev    chan evT
-	state string // "N" not started, "P" parked, "B" blocked, "D" done
-	point string
+	idx    int
+	gid    int64
+	wake   chan struct{}
+	ev     chan evT
+	state  string // "N" not started, "P" parked, "B" blocked, "D" done
+	rcSeen bool   // passed the yield point register.checked once already
+	point  string
 }
 
 var (
@@ -99,6 +105,12 @@ func yieldHook(point string) {
 	regMu.Unlock()
 	if a == nil {
 		return // not a scheduled goroutine (setup, probes)
+	}
+	if point == "register.checked" {
+		if a.rcSeen {
+			return // a mount of a sub-router with several routes: only its first registration is a scheduling point
+		}
+		a.rcSeen = true
 	}
 	a.ev <- evT{point: point}
 	<-a.wake
@@ -327,7 +339,7 @@ func visTok(a *actor) string {
 type world struct {
 	r      *router.Router
 	grp    *route.Group
-	v1     *router.VersionRouter
+	v1, v2 *router.VersionRouter
 	objMu  sync.Mutex
 	objs   map[int]*route.Route // retained route objects by id
 	kindOf map[int]actorT
@@ -347,6 +359,9 @@ func (w *world) reqPath(id int, valInt bool) string {
 		v = "12"
 	}
 	a := w.kindOf[id]
+	if a.RK >= 200 { // the twin of version route p in v2: the same path, asked for with the version header
+		return "/r" + strconv.Itoa(a.RK-200) + "/" + v
+	}
 	if a.RK >= 100 { // below route p: the parent's parameter, then one more static segment
 		_, prefix := routePath(w.kindOf[a.RK-100])
 		return prefix + "/r" + strconv.Itoa(a.RK-100) + "/" + v + "/d" + strconv.Itoa(id)
@@ -355,13 +370,35 @@ func (w *world) reqPath(id int, valInt bool) string {
 	return prefix + "/r" + strconv.Itoa(id) + "/" + v
 }
 
-func (w *world) get(id int, valInt bool) string {
+func (w *world) get(id int, valInt bool, final bool) string {
+	a := w.kindOf[id]
+	scoped := false
+	if final && isMount(a.RK) && a.R%4 != 3 { // (only in the probes after the schedule: one request per Q step)
+		// the mount carries WithNotFound: FIRST ask for a path below the prefix that no route has. The scoped handler is
+		// installed after the routes were merged, so "scoped handler answers, and THEN the mounted route is not
+		// routable" means a rejected (or half-done) mount changed routing.
+		rec := httptest.NewRecorder()
+		w.r.ServeHTTP(rec, httptest.NewRequest(http.MethodGet, "/m"+strconv.Itoa(id)+"/no/such/route", nil))
+		scoped = rec.Header().Get("X-Scoped-NF") == strconv.Itoa(id)
+	}
 	rec := httptest.NewRecorder()
-	w.r.ServeHTTP(rec, httptest.NewRequest(http.MethodGet, w.reqPath(id, valInt), nil))
+	req := httptest.NewRequest(http.MethodGet, w.reqPath(id, valInt), nil)
+	if a.RK >= 200 {
+		req.Header.Set("X-API-Version", "v2")
+	}
+	w.r.ServeHTTP(rec, req)
 	if rec.Code == http.StatusOK {
+		if a.RK >= 200 && rec.Header().Get("X-Route") == strconv.Itoa(a.RK-200) {
+			// a version without a tree for the method is served from the default version's tree (C13's subject):
+			// the twin itself did not answer
+			return "0"
+		}
 		return "1 " + rec.Header().Get("X-Route")
 	}
 	if rec.Code == http.StatusNotFound {
+		if scoped {
+			return "1 " + strconv.Itoa(800000+id) // not-found handler of a mount whose route is not there
+		}
 		return "0"
 	}
 	return "1 " + strconv.Itoa(900000+rec.Code) // anything else never matches the model
@@ -386,7 +423,7 @@ func (w *world) do(a actorT) (out string) {
 	}()
 	switch a.K {
 	case "Q":
-		return "H " + w.get(a.R, a.Val)
+		return "H " + w.get(a.R, a.Val, false)
 	case "F":
 		w.r.Freeze()
 		return "-"
@@ -396,12 +433,15 @@ func (w *world) do(a actorT) (out string) {
 	case "R":
 		pattern, prefix := routePath(a)
 		rk := a.RK
-		if rk >= 100 {
+		if rk >= 100 && rk < 200 {
 			pattern = "/r" + strconv.Itoa(rk-100) + "/:id/d" + strconv.Itoa(a.R)
 			rk = w.kindOf[rk-100].RK
-			if rk == 2 || rk >= 100 {
+			if isMount(rk) || rk >= 100 {
 				rk = 0
 			}
+		}
+		if rk >= 200 {
+			rk = 7
 		}
 		var rt *route.Route
 		p := panics(func() {
@@ -410,10 +450,20 @@ func (w *world) do(a actorT) (out string) {
 				rt = w.r.GET(pattern, w.handler(a.R))
 			case 1:
 				rt = w.grp.GET(pattern, w.handler(a.R))
-			case 2:
-				w.r.Mount(prefix, w.subs[a.R]) // the sub-router was built unscheduled (its own registration yields too)
+			case 2, 4, 5, 6:
+				// the sub-router was built unscheduled (its own registration yields too)
+				if a.R%4 != 3 {
+					w.r.Mount(prefix, w.subs[a.R], route.WithNotFound(router.HandlerFunc(func(c *router.Context) {
+						c.Response.Header().Set("X-Scoped-NF", strconv.Itoa(a.R))
+						c.Response.WriteHeader(http.StatusNotFound)
+					})))
+				} else {
+					w.r.Mount(prefix, w.subs[a.R])
+				}
 			case 3:
 				rt = w.v1.GET(pattern, w.handler(a.R))
+			case 7:
+				rt = w.v2.GET(pattern, w.handler(a.R))
 			}
 		})
 		if p {
@@ -461,9 +511,10 @@ func (w *world) do(a actorT) (out string) {
 func runPhases(id string, k caseT, st *hx.Stats) string {
 	hookOn.Do(func() { router.VerifSetYield(yieldHook) })
 	w := &world{objs: map[int]*route.Route{}, kindOf: map[int]actorT{}, subs: map[int]*router.Router{}}
-	w.r = router.MustNew(router.WithVersioning(version.WithHeaderDetection("X-API-Version"), version.WithDefault("v1")))
+	w.r = router.MustNew(router.WithVersioning(version.WithHeaderDetection("X-API-Version"), version.WithDefault("v1")), router.WithRouteCompilation(k.Comp))
 	w.grp = w.r.Group("/g")
 	w.v1 = w.r.Version("v1")
+	w.v2 = w.r.Version("v2")
 	var ids []int
 	for _, a := range k.Actors {
 		if a.K == "R" {
@@ -481,10 +532,18 @@ func runPhases(id string, k caseT, st *hx.Stats) string {
 	}
 	sort.Ints(ids)
 	for _, a := range k.Actors {
-		if a.K == "R" && a.RK == 2 {
+		if a.K == "R" && isMount(a.RK) {
 			pattern, _ := routePath(a)
 			sub := router.MustNew()
-			sub.GET(pattern, w.handler(a.R))
+			if a.RK == 4 || a.RK == 6 { // static routes only: exactly the two paths the probes ask for
+				sub.GET("/r"+strconv.Itoa(a.R)+"/12", w.handler(a.R))
+				sub.GET("/r"+strconv.Itoa(a.R)+"/abc", w.handler(a.R))
+			} else {
+				sub.GET(pattern, w.handler(a.R))
+			}
+			if a.RK >= 5 { // a sub-router that served (or was warmed up) on its own before it is mounted
+				sub.Warmup()
+			}
 			w.subs[a.R] = sub
 		}
 	}
@@ -599,7 +658,7 @@ func runPhases(id string, k caseT, st *hx.Stats) string {
 	if allDone {
 		l.Nat(len(ids))
 		for _, r := range ids {
-			l.Tok(w.get(r, true)).Tok(w.get(r, false))
+			l.Tok(w.get(r, true, true)).Tok(w.get(r, false, true))
 		}
 	} else {
 		l.Nat(0) // goroutines are stuck inside the router: do not touch it from here
@@ -615,8 +674,12 @@ func runPhases(id string, k caseT, st *hx.Stats) string {
 		for _, a := range k.Actors {
 			st.Count("kind_" + a.K)
 			if a.K == "R" {
-				if a.RK >= 100 {
+				if a.RK >= 200 {
+					st.Count("register_same_path_in_second_version")
+				} else if a.RK >= 100 {
 					st.Count("register_below_another_route")
+				} else if a.RK >= 4 {
+					st.Count("register_via_mount_" + []string{"static_sub", "warmed_sub", "warmed_static_sub"}[a.RK-4])
 				} else {
 					st.Count("register_via_" + []string{"router", "group", "mount", "version"}[a.RK])
 				}
@@ -631,6 +694,9 @@ func runPhases(id string, k caseT, st *hx.Stats) string {
 			case strings.HasPrefix(e, "B "):
 				st.Count("step_blocked")
 			}
+		}
+		if k.Comp {
+			st.Count("route_compilation_on")
 		}
 		if critical {
 			st.Count("switch_inside_once_body")
@@ -652,7 +718,7 @@ var sawDeadlock bool
 
 // ---------------------------------------------------------------- generators (phases)
 
-func reg(r, rk int) actorT { return actorT{K: "R", R: r, RK: rk} }
+func reg(r, rk int) actorT    { return actorT{K: "R", R: r, RK: rk} }
 func rq(r int, v bool) actorT { return actorT{K: "Q", R: r, Val: v} }
 
 // fixedPhases: the K12 / K12b witnesses and the documented windows.
@@ -690,10 +756,19 @@ func fixedPhases() []caseT {
 		{Actors: []actorT{reg(1, 0), {K: "W"}, reg(2, 3), rq(1, true), rq(2, true)}, Plan: []int{0, 0, 1, 1, 1, 1, 2, 3, 3, 3, 3, 3, 3, 3, 3, 2, 4, 4, 4}},
 		// … and in the freeze window itself (flags set, Warmup not yet entered)
 		{Actors: []actorT{reg(1, 0), reg(2, 1), rq(1, true), rq(2, true)}, Plan: []int{0, 0, 1, 2, 2, 1, 2, 2, 2, 2, 2, 2, 3, 3, 3}},
+		// seeded C12-12 class: sub-routers that were warmed up before the mount / hold static routes only
+		{Actors: []actorT{reg(1, 0), reg(2, 6), reg(4, 5), reg(5, 4), rq(2, true), rq(4, true), rq(5, false)}, Plan: []int{0, 0, 1, 1, 2, 2, 3, 3, 4, 5, 6}},
+		{Actors: []actorT{reg(1, 0), {K: "W"}, reg(2, 6), reg(4, 5), rq(2, false), rq(4, true)}, Plan: []int{0, 0, 1, 1, 1, 1, 2, 2, 3, 3, 4, 5}},
+		// seeded C12-9 class: a LATE mount that carries a prefix-scoped not-found handler (rejected: nothing of it may stay)
+		{Actors: []actorT{reg(1, 0), rq(1, true), reg(2, 2), reg(4, 6), rq(2, true)}, Plan: []int{0, 0, 1, 1, 1, 1, 1, 1, 1, 1, 2, 2, 3, 3, 4}},
+		// seeded C12-10 class: one path in two versions (and route compilation on)
+		{Actors: []actorT{reg(1, 3), reg(2, 201), rq(1, true), rq(2, true), rq(1, false)}, Plan: []int{0, 0, 1, 1, 2, 3, 4}, Comp: true},
+		{Actors: []actorT{reg(1, 3), reg(2, 201), reg(3, 0), {K: "H", R: 2}, rq(2, false), rq(1, false), rq(3, true)}, Plan: []int{0, 0, 1, 1, 2, 2, 3, 4, 5, 6}, Comp: true},
+		{Actors: []actorT{reg(2, 201), reg(1, 3), {K: "W"}, {K: "H", R: 1}, rq(2, false), rq(1, false)}, Plan: []int{0, 0, 1, 1, 2, 2, 2, 2, 3, 4, 5}},
 	}
 }
 
-var oneShots = []actorT{reg(9, 0), reg(9, 1), reg(9, 2), reg(9, 3), {K: "H", R: 1}, {K: "N", R: 1}, {K: "U", R: 1}, {K: "F"}, {K: "W"}, rq(1, true), rq(1, false), rq(9, true), {K: "B", R: 1}, rq(5, false)}
+var oneShots = []actorT{reg(9, 0), reg(9, 1), reg(9, 2), reg(9, 3), reg(9, 6), {K: "H", R: 1}, {K: "N", R: 1}, {K: "U", R: 1}, {K: "F"}, {K: "W"}, rq(1, true), rq(1, false), rq(9, true), {K: "B", R: 1}, rq(5, false)}
 var drivers = []actorT{rq(1, true), {K: "F"}, {K: "W"}, rq(1, false)}
 
 // familyOne: one driver goroutine advanced step by step, a one-shot operation inserted after k steps; a
@@ -744,18 +819,26 @@ func familyOne(emit func(caseT)) {
 // familyTwo: two drivers, interleavings with at most `sw` context switches, optionally a one-shot in between.
 func familyTwo(r *hx.Rand, n int, emit func(caseT)) {
 	for c := 0; c < n; c++ {
-		acts := []actorT{reg(1, hx.Pick(r, []int{0, 0, 1, 2, 3})), reg(2, hx.Pick(r, []int{0, 1, 3}))}
+		acts := []actorT{reg(1, hx.Pick(r, []int{0, 0, 1, 2, 3, 3, 4, 5, 6})), reg(2, hx.Pick(r, []int{0, 1, 3}))}
 		plan := []int{0, 0, 1, 1}
+		twin := acts[0].RK == 3 && r.Chance(1, 2) // the same path in version v2
+		if twin {
+			acts = append(acts, reg(3, 201))
+			plan = append(plan, 2, 2)
+		}
 		named := r.Chance(1, 2)
 		if named {
 			t := 1
-			if acts[0].RK == 2 {
+			if isMount(acts[0].RK) {
 				t = 2 // a mount hands out no route object
 			}
 			acts = append(acts, actorT{K: "N", R: t})
-			plan = append(plan, 2)
+			plan = append(plan, len(acts)-1)
 		}
 		base := len(acts)
+		if twin {
+			acts = append(acts, rq(3, r.Chance(1, 2)))
+		}
 		nd := r.Range(2, 3)
 		for j := 0; j < nd; j++ {
 			d := hx.Pick(r, drivers)
@@ -771,7 +854,7 @@ func familyTwo(r *hx.Rand, n int, emit func(caseT)) {
 			if x.K == "R" {
 				x.R = 9 + j
 			}
-			if (x.K == "H" || x.K == "N" || x.K == "B") && acts[0].RK == 2 {
+			if (x.K == "H" || x.K == "N" || x.K == "B") && isMount(acts[0].RK) {
 				x.R = 2 // a mount hands out no route object
 			}
 			if x.K == "N" && (named || j > 0) {
@@ -799,10 +882,19 @@ func familyRandom(r *hx.Rand, n int, emit func(caseT)) {
 		nr := r.Range(1, 3)
 		mountIDs := map[int]bool{}
 		for j := 1; j <= nr; j++ {
-			rk := r.Intn(4)
+			rk := hx.Pick(r, []int{0, 0, 1, 1, 2, 3, 3, 4, 5, 6})
 			acts = append(acts, reg(j, rk))
-			if rk == 2 {
+			if isMount(rk) {
 				mountIDs[j] = true
+			}
+		}
+		for j := 1; j <= nr; j++ { // the same path in version v2
+			if acts[j-1].RK == 3 && r.Chance(1, 2) {
+				acts = append(acts, reg(8, 200+j), rq(8, r.Chance(1, 2)))
+				if r.Chance(1, 3) {
+					acts = append(acts, actorT{K: "H", R: 8})
+				}
+				break
 			}
 		}
 		if r.Chance(1, 3) { // a route below route 1
@@ -862,6 +954,7 @@ type urlCaseT struct {
 	Pattern string            // e.g. /users/:id/posts/:pid
 	Params  map[string]string // values (valid single path segments, or not)
 	Extra   []string          // other routes registered next to it
+	Sib     bool              `json:",omitempty"` // a second NAMED route whose path differs only in the trailing slash
 }
 
 var segPool = []string{"users", "posts", "a", "v1", "files", "x-y", "_", "api"}
@@ -899,6 +992,11 @@ func genURLCase(r *hx.Rand) urlCaseT {
 	if r.Chance(1, 3) {
 		u.Extra = append(u.Extra, "/other/:z")
 	}
+	if np == 0 && r.Chance(1, 2) {
+		// (only for parameter-less routes: a route WITH parameters and its trailing-slash twin share one tree node —
+		// the second registration replaces the first; a duplicate registration, the routing properties' subject)
+		u.Sib = true
+	}
 	return u
 }
 
@@ -913,6 +1011,15 @@ func runURL(id string, u urlCaseT, st *hx.Stats) string {
 	}).SetName("t")
 	for i, e := range u.Extra {
 		r.GET(e, func(c *router.Context) { hit = "E" + strconv.Itoa(i); _ = c.String(200, "ok") })
+	}
+	if u.Sib {
+		sib := u.Pattern + "/"
+		if strings.HasSuffix(u.Pattern, "/") {
+			sib = strings.TrimSuffix(u.Pattern, "/")
+		}
+		if sib != "" {
+			r.GET(sib, func(c *router.Context) { hit = "S"; _ = c.String(200, "ok") }).SetName("s")
+		}
 	}
 	r.Freeze()
 	names := make([]string, 0, len(u.Params))
@@ -979,6 +1086,9 @@ func runURL(id string, u urlCaseT, st *hx.Stats) string {
 		}
 		st.Case(in[len(id):], nonCanon)
 		st.Count("url_cases")
+		if u.Sib {
+			st.Count("url_named_sibling_differs_in_trailing_slash")
+		}
 		if err != nil {
 			st.Count("url_error")
 		}
@@ -1548,11 +1658,18 @@ func main() {
 			if sawDeadlock {
 				return
 			}
+			if n%5 == 4 {
+				k.Comp = true // compiled route matching in front of the trees (opt-in configuration)
+			}
 			fmt.Fprintln(w, runPhases(fmt.Sprintf("c12-%d-%d", a.Seed, n), k, st))
 			n++
 		}
 		for i, k := range fixedPhases() {
 			fmt.Fprintln(w, runPhases(fmt.Sprintf("c12-fix-%d", i), k, st))
+			if !k.Comp && !sawDeadlock {
+				k.Comp = true
+				fmt.Fprintln(w, runPhases(fmt.Sprintf("c12-fixc-%d", i), k, st))
+			}
 		}
 		familyOne(emit)
 		budget := a.N
